@@ -15,7 +15,7 @@ from pathlib import Path
 
 import pathspec
 
-from flowmark.file_resolver.gitignore import load_gitignore, load_tool_ignore
+from flowmark.file_resolver.gitignore import find_tool_ignore, load_gitignore, load_tool_ignore
 from flowmark.file_resolver.types import FileResolverConfig
 
 # Characters that indicate a path is a glob pattern rather than a literal path.
@@ -164,7 +164,7 @@ class FileResolver:
                     continue
                 if self._is_gitignored(resolved_current / filename, False, gitignore_chain):
                     continue
-                if tool_ignore and tool_ignore.match_file(filename):
+                if self._is_tool_ignored(resolved_current / filename, False, tool_ignore, root):
                     continue
                 yield filepath
 
@@ -191,9 +191,8 @@ class FileResolver:
             if self._is_gitignored(current_dir.resolve() / dirname, True, chain):
                 return True
 
-        if tool_ignore and tool_ignore.match_file(dir_with_slash):
-            return True
-        if tool_ignore and tool_ignore.match_file(rel_with_slash):
+        start = walk_root if walk_root is not None else current_dir
+        if self._is_tool_ignored(current_dir.resolve() / dirname, True, tool_ignore, start):
             return True
 
         return False
@@ -219,30 +218,39 @@ class FileResolver:
             # Same exclusions as for directory traversal: files in excluded or ignored
             # directories, and files matched by the tool ignore file, are not wanted.
             rel = path.relative_to(root)
+            resolved_root = root.resolve()
             if any(
-                self._is_dir_excluded_by_patterns(parent.name, parent, tool_ignore)
+                self._exclude_spec.match_file(parent.name + "/")
+                or self._exclude_spec.match_file(str(parent) + "/")
+                or self._is_tool_ignored(resolved_root / parent, True, tool_ignore, root)
                 for parent in list(rel.parents)[:-1]
             ):
                 continue
-            if tool_ignore and tool_ignore.match_file(path.name):
+            if self._is_tool_ignored(resolved_root / rel, False, tool_ignore, root):
                 continue
             yield path
 
-    def _is_dir_excluded_by_patterns(
-        self, dirname: str, rel_path: Path, tool_ignore: pathspec.PathSpec | None
+    def _is_tool_ignored(
+        self,
+        path: Path,
+        is_dir: bool,
+        tool_ignore: pathspec.PathSpec | None,
+        start_dir: Path,
     ) -> bool:
-        """Exclusion and tool-ignore part of `_is_dir_excluded()` (no gitignore lookup)."""
-        dir_with_slash = dirname + "/"
-        rel_with_slash = str(rel_path) + "/"
-        if self._exclude_spec.match_file(dir_with_slash) or self._exclude_spec.match_file(
-            rel_with_slash
-        ):
-            return True
-        if tool_ignore and (
-            tool_ignore.match_file(dir_with_slash) or tool_ignore.match_file(rel_with_slash)
-        ):
-            return True
-        return False
+        """
+        Check `path` against the tool ignore file found from `start_dir`. As in a
+        `.gitignore`, its patterns are relative to the directory the file lives in.
+        """
+        if tool_ignore is None:
+            return False
+        ignore_file = find_tool_ignore(self._config.tool_name, start_dir)
+        if ignore_file is None:
+            return False
+        try:
+            rel = path.relative_to(ignore_file.parent).as_posix()
+        except ValueError:
+            return False
+        return _gitignore_decision(tool_ignore, rel, is_dir) is True
 
     def _exceeds_max_size(self, path: Path) -> bool:
         """Check if a file exceeds the configured max size. 0 = no limit."""
